@@ -17,6 +17,21 @@ CHECKS = {
                      "validated record by record by TLC (Trace_BoxHit).",
                 technique="TLA+ oracle + design transcription model-checked by TLC; spec->code replay of TLC states; code->spec trace validation by TLC",
                 ref="§6 C01"),
+    "C02": dict(engine="SPGeom/SPGeomImpl/MC_PointHit/Trace_BoxHit",
+                text="TLC enumerates every shape of the small-scope families x every test point of the doubled grid (rays through "
+                     "vertices, along horizontal edges, collinear extensions are the norm), checks the winding-number transcription "
+                     "against the crossing-parity oracle, and the states are replayed on PointArray/Point/GeoSeries.intersects in "
+                     "array, inds and scalar form; random larger shapes run on the code are judged by TLC.",
+                technique="TLA+ oracle + design transcription model-checked by TLC; spec->code replay; code->spec trace validation",
+                ref="§6 C02"),
+    "C03": dict(engine="RTree/MC_RTree/Trace_RTree",
+                text="TLC model-checks the transcription of the R-tree build, node-to-slice mapping, stack traversal and leaf masks "
+                     "against brute force for every row sequence (incl. NaN rows, duplicates, zero-extent boxes), page size, key "
+                     "permutation and query of the small scope in 1-3 dimensions; the generated cases are replayed on HilbertRtree / "
+                     "GeometryArray.sindex; traces of random trees incl. the code's private keys and node boxes are validated by "
+                     "TLC against both brute force and the modelled design.",
+                technique="TLC model checking of the design against brute force; spec->code replay; code->spec trace validation incl. private state",
+                ref="§6 C03"),
 }
 
 NOT_YET = {}
